@@ -226,7 +226,7 @@ def c05_opts(rng):
 
 
 def c06_opts(rng):
-    return ({"nhosts": [0, 1, 2, 3, 5, 8, 12]}, {"depth": [0, 1], "nfilters": [0, 0, 1], "sort": 0.8, "limit": 0.7, "offset": 0.5, "formats": ["json", "wrapped_json"], "colheaders": 0.1, "near_default_p": 0.7, "index_window_p": 0.12, "tables": ["hosts", "services", "services", "hostgroups", "comments", "servicesbygroup"]})
+    return ({"nhosts": [0, 1, 2, 3, 5, 8, 12]}, {"depth": [0, 1], "nfilters": [0, 0, 1], "sort": 0.8, "limit": 0.7, "offset": 0.5, "formats": ["json", "wrapped_json"], "colheaders": 0.1, "near_default_p": 0.7, "index_window_p": 0.12, "cv_sort_p": 0.2, "tables": ["hosts", "services", "services", "hostgroups", "comments", "servicesbygroup"]})
 
 
 def c07_opts(rng):
